@@ -318,6 +318,62 @@ func groupC14(n int) {
 			frag(mtu, t)
 		}
 	}
+	// maxFragmentSize / lowEntropyEncodedPayloadLen / buildLowEntropyParams: value and "an error was returned" (0/1)
+	errS := func(v int64, err error) string {
+		if err != nil {
+			return "0 1"
+		}
+		return i(v) + " 0"
+	}
+	fragLE := func(mtu int64, t int, mode int32) {
+		out := emit("maxFragmentSize", []string{i(mtu), fmt.Sprint(t), i(int64(mode))}, func() string {
+			v, err := protocol.VerifC14MaxFragmentSize(int(mtu), common.TransportProtocol(t), mode)
+			return errS(int64(v), err)
+		})
+		r.Distinct(fmt.Sprintf("fragle/t%d/m%d/%s", t, mode, out[len(out)-1:]))
+	}
+	encLen := func(n int64, mode int32) {
+		out := emit("lowEntropyEncodedPayloadLen", []string{i(n), i(int64(mode))}, func() string {
+			v, err := protocol.VerifC14LowEntropyEncodedPayloadLen(int(n), mode)
+			return errS(int64(v), err)
+		})
+		r.Distinct(fmt.Sprintf("enclen/m%d/%s", mode, out[len(out)-1:]))
+	}
+	modes := []int32{-1, 0, 1, 2, 3, 4, 5, 8, math.MaxInt32, math.MinInt32}
+	for _, mode := range modes {
+		emit("buildLowEntropyParams", []string{i(int64(mode))}, func() string {
+			c, w, err := protocol.VerifLEParams(mode)
+			if err != nil {
+				return fmt.Sprintf("%d %d 1", c, w)
+			}
+			return fmt.Sprintf("%d %d 0", c, w)
+		})
+		for _, t := range transports {
+			for _, mtu := range i64Boundary {
+				fragLE(mtu, t, mode)
+			}
+			for mtu := int64(80); mtu <= 130; mtu++ {
+				fragLE(mtu, t, mode)
+			}
+		}
+		for _, nn := range i64Boundary {
+			encLen(nn, mode)
+		}
+		for nn := int64(-2); nn <= 64; nn++ {
+			encLen(nn, mode)
+		}
+		for _, c := range []int64{4, 5, 6, 7} { // around the 8191-chunk limit of every mode
+			for d := int64(-8); d <= 8; d++ {
+				encLen(8191*c+d, mode)
+			}
+		}
+	}
+	for k := 0; k < n; k++ {
+		fragLE(randI64(g), g.Intn(4), modes[g.Intn(len(modes))])
+		fragLE(int64(g.Range(0, 2000)), g.Intn(4), int32(g.Intn(6)))
+		encLen(randI64(g), int32(g.Intn(6)))
+		encLen(int64(g.Intn(70000)), int32(g.Intn(6)))
+	}
 	for _, mtu := range []int64{1280, 1400, 1500} {
 		for _, t := range transports {
 			for _, room := range []int64{-300, -1, 0, 1, 2, 100, 254, 255, 256, 257, 300, 509, 510, 511, 600} {
